@@ -289,8 +289,10 @@ def lenbytes(r, big_p=0.05):
 
 class StructProp(Prop):
     """shared by C03-C05: protected header either stored bytes (oracle = those bytes) or built (oracle = model)"""
+    UNSER = ['(ph - (hdr A-7 (crit) - b b b (cs) (rest i1 i5)))', '(ph - (hdr - (crit) - b3131 b b (cs) (rest t78 i1 t78 i2)))', '(ph - (hdr - (crit) - b b b (cs) (rest i9 i1 i10 N i9 i2)))']
     def phs(self, g, r):
         x = r.random()
+        if x < 0.03: return r.choice(self.UNSER), None      # repeats a label: serialising it fails, the structure functions refuse (panic)
         if x < 0.45:
             p = bytes.fromhex(r.choice(NONCANON_PH)) if r.random() < 0.5 else g.venc(g.header(2))
             if r.random() < 0.15: p = b''
@@ -316,6 +318,8 @@ class StructProp(Prop):
         return None
     def impl_pred(self, o, impl):
         exp = o['meta'].get('expect_panic')
+        if any(u[len('(ph - '):-1] in o['op'] for u in self.UNSER):
+            return None     # whether the call reaches that header (which signer is indexed) is decided by the proved model: judge() compares
         if exp is True and impl != 'panic': return 'documented refusal (panic) did not happen'
         if exp is False and impl == 'panic': return 'unexpected panic'
         return self.check_bytes(o, impl)
